@@ -202,12 +202,18 @@ def _angles_ok(lmax, theta, phi):
         return False
 
 
-def _subsample(n, lmax, factor=1.0):
-    """Indices of the points the oracle is evaluated on (all when small enough)."""
+FULL_ELEMS = 3.0e8  # rows*points up to which EVERY column of a call is compared (in chunks of MAX_ELEMS); above: a subset of chunks
+
+
+def _chunks(ctx, n, lmax, factor=1.0):
+    """Index chunks covering ALL columns of a call (first and last chunk always included when the call is too large)."""
     cap = max(4, int(MAX_ELEMS * factor / (lmax + 1) ** 2))
-    if n <= cap:
-        return np.arange(n)
-    return np.unique(np.linspace(0, n - 1, cap).astype(int))
+    starts = list(range(0, n, cap))
+    if n * (lmax + 1.0) ** 2 > FULL_ELEMS:
+        keep = max(2, int(FULL_ELEMS / (lmax + 1.0) ** 2 / cap))
+        starts = [starts[i] for i in sorted(set(np.linspace(0, len(starts) - 1, keep).astype(int).tolist()))]
+        ctx.count("subsampled-calls")
+    return [np.arange(a, min(n, a + cap)) for a in starts]
 
 
 def _first_bad(err_rows, tol):
@@ -270,10 +276,14 @@ def _check_values(ctx, fname, res, lmax, theta, phi):
     if n == 0:
         ctx.count("empty-input-calls")
         return True
-    idx = _subsample(n, lmax)
-    if len(idx) < n:
-        ctx.count("subsampled-calls")
-    th, ph = th[idx], ph[idx]
+    th_all, ph_all = th, ph
+    for idx in _chunks(ctx, n, lmax):
+        _check_values_chunk(ctx, fname, res, lmax, theta, phi, th_all, ph_all, idx)
+    return True
+
+
+def _check_values_chunk(ctx, fname, res, lmax, theta, phi, th_all, ph_all, idx):
+    th, ph = th_all[idx], ph_all[idx]
     Y = res[:, idx]
     decided, pole = o8.classify_polar(ph)
     ref = sph.ref_Y(lmax, th, ph)
@@ -283,7 +293,7 @@ def _check_values(ctx, fname, res, lmax, theta, phi):
     if low is not None:
         if low > 1e-6 or lmax > LOW_PREC_LMAX:
             ctx.count("low-precision-angles-not-decided:" + fname)
-            return True
+            return
         tol = max(tol, tol_low(low, lmax, (th, ph)))
         ctx.count("single-precision-angle-calls:" + fname)
     sfx = "" if low is None else "-single-precision-input"  # separate clause names keep the float64 maxima readable
@@ -292,7 +302,7 @@ def _check_values(ctx, fname, res, lmax, theta, phi):
         rows = np.where(np.isnan(ed), np.inf, ed).max(axis=1)
         worst = float(rows.max())
         sig = _first_bad(rows, tol)
-        _chk(ctx, "values-match-definition" + sfx, fname, worst, tol, sig=sig, detail=None if sig is None else dict(_worst(ed, th[decided], ph[decided]), lmax=lmax))
+        _chk(ctx, "values-match-definition" + sfx, fname, worst, tol, sig=sig, detail=None if sig is None else dict(_worst(ed, th[decided], ph[decided]), lmax=lmax, n_points=len(th_all), worst_column=int(idx[decided][int(np.argmax(np.where(np.isnan(ed), np.inf, ed).max(axis=0)))])))
         ctx.count("points-decided:" + fname, int(decided.sum()))
         if pole.any():
             ctx.count("points-at-poles:" + fname, int((pole & decided).sum()))
@@ -312,7 +322,6 @@ def _check_values(ctx, fname, res, lmax, theta, phi):
         follows = "follows the Cartesian point (== oracle)" if dev <= tol else "differs from the Cartesian-point oracle"
         _observe(ctx, f"reflected polar angle: {fname} {follows}", lmax=lmax, max_dev=dev, phi=float(ph[refl][0]))
         ctx.count("points-reflected-observed:" + fname, int(refl.sum()))
-    return True
 
 
 def _post_rec(ctx):
@@ -335,20 +344,20 @@ def _post_rec(ctx):
         if len(th) == 0 or (low is not None and (low > 1e-6 or lmax > LOW_PREC_LMAX)):
             return
         tol = tol_values(lmax) if low is None else tol_low(low, lmax, (th, ph))
-        idx = _subsample(len(th), lmax, factor=0.5)
-        decided, _ = o8.classify_polar(ph[idx])
-        idx = idx[decided]
-        if len(idx) == 0:
-            return
-        try:
-            other = ORIG[F_SCI](lmax, th[idx], ph[idx])
-        except Exception as e:  # the SciPy path raising on admissible input is its own failure
-            ctx.fail("implementations-agree", F_SCI, f"raised:{type(e).__name__}", detail={"error": str(e)[:200], "lmax": lmax})
-            return
-        err = np.abs(np.asarray(res[:, idx] - other, dtype=float))
-        rows = np.where(np.isnan(err), np.inf, err).max(axis=1)
-        sig = _first_bad(rows, tol)
-        _chk(ctx, "implementations-agree" + ("" if low is None else "-single-precision-input"), "recursion-vs-scipy", float(rows.max()), tol, sig=sig, detail=None if sig is None else dict(_worst(err, th[idx], ph[idx]), lmax=lmax))
+        for idx in _chunks(ctx, len(th), lmax, factor=0.5):
+            decided, _ = o8.classify_polar(ph[idx])
+            idx = idx[decided]
+            if len(idx) == 0:
+                continue
+            try:
+                other = ORIG[F_SCI](lmax, th[idx], ph[idx])
+            except Exception as e:  # the SciPy path raising on admissible input is its own failure
+                ctx.fail("implementations-agree", F_SCI, f"raised:{type(e).__name__}", detail={"error": str(e)[:200], "lmax": lmax})
+                continue
+            err = np.abs(np.asarray(res[:, idx] - other, dtype=float))
+            rows = np.where(np.isnan(err), np.inf, err).max(axis=1)
+            sig = _first_bad(rows, tol)
+            _chk(ctx, "implementations-agree" + ("" if low is None else "-single-precision-input"), "recursion-vs-scipy", float(rows.max()), tol, sig=sig, detail=None if sig is None else dict(_worst(err, th[idx], ph[idx]), lmax=lmax))
 
     return post
 
@@ -401,23 +410,38 @@ def _post_der(ctx):
         if len(idx) == 0:
             _observe(ctx, "reflected polar angle: derivative routine called on reflected angles only (not decided)", lmax=lmax)
             return
+        # EVERY decided column against the oracle: d/dtheta Y_lm = -m Y_l,-m and the degree-lowering identity
+        # sin(phi) d/dphi Y_lm = l cos(phi) Y_lm - sqrt((2l+1)(l^2-m^2)/(2l-1)) Y_l-1,m (a different formula from the library's)
+        sfx = "" if low is None else "-single-precision-input"
+        q, ms = o8.partner_rows(lmax)
+        ls_, _ms = o8.row_lm(lmax)
+        lower, coef = o8.lowering_rows(lmax)
+        for cidx in _chunks(ctx, n, lmax):
+            cidx = cidx[decided[cidx]]
+            if len(cidx) == 0:
+                continue
+            cth, cph = th[cidx], ph[cidx]
+            ref = sph.ref_Y(lmax, cth, cph)
+            t0 = tol_values(lmax) * (1 + lmax) if low is None else max(tol_deriv(lmax, cth, cph), tol_low(low, lmax, (cth, cph), power=3))
+            e = np.abs(np.asarray(res[0][:, cidx] - (-ms[:, None] * ref[q]), dtype=float))
+            rows = np.where(np.isnan(e), np.inf, e).max(axis=1)
+            sig = _first_bad(rows, t0)
+            _chk(ctx, "dtheta-vs-oracle" + sfx, F_DER, float(rows.max()), t0, sig=sig, detail=None if sig is None else dict(_worst(e, cth, cph), lmax=lmax, n_points=n))
+            sp = np.sin(cph)
+            away = np.abs(sp) > 1e-3
+            if away.any():
+                want = ls_[:, None] * np.cos(cph[away])[None, :] * ref[:, away] - coef[:, None] * np.where(lower[:, None] >= 0, ref[np.maximum(lower, 0)][:, away], 0.0)
+                e = np.abs(np.asarray(res[1][:, cidx[away]] * sp[away][None, :] - want, dtype=float))
+                rows = np.where(np.isnan(e), np.inf, e).max(axis=1)
+                sig = _first_bad(rows, t0)
+                _chk(ctx, "dphi-vs-oracle" + sfx, F_DER, float(rows.max()), t0, sig=sig, detail=None if sig is None else dict(_worst(e, cth[away], cph[away]), lmax=lmax, n_points=n))
         cap = max(2, int(MAX_ELEMS / 24 / nrow))
-        if len(idx) > 4 * cap:  # at most four chunks of numerical differentiation per call
+        if len(idx) > 4 * cap:  # at most four chunks of numerical differentiation per call (first and last column included)
             idx = idx[np.unique(np.linspace(0, len(idx) - 1, 4 * cap).astype(int))]
             ctx.count("subsampled-calls")
         tol = tol_deriv(lmax, th[idx], ph[idx])
         if low is not None:
             tol = max(tol, tol_low(low, lmax, (th[idx], ph[idx]), power=3))
-        sfx = "" if low is None else "-single-precision-input"
-        # d/dtheta against the oracle (d/dtheta cos(m theta) = -m sin(m theta): row(l,m) -> -m * row(l,-m))
-        q, ms = o8.partner_rows(lmax)
-        ref = sph.ref_Y(lmax, th[idx], ph[idx])
-        want = -ms[:, None] * ref[q]
-        e = np.abs(np.asarray(res[0][:, idx] - want, dtype=float))
-        rows = np.where(np.isnan(e), np.inf, e).max(axis=1)
-        t0 = tol_values(lmax) * (1 + lmax) if low is None else tol
-        sig = _first_bad(rows, t0)
-        _chk(ctx, "dtheta-vs-oracle" + sfx, F_DER, float(rows.max()), t0, sig=sig, detail=None if sig is None else dict(_worst(e, th[idx], ph[idx]), lmax=lmax))
         # both derivatives against numerical differentiation of the implemented harmonics (longdouble)
         rho = o8.numdiff_radius(lmax)
         nn = 24
@@ -492,34 +516,35 @@ def _post_sol(ctx):
         if low is not None and (low > 1e-6 or lmax > LOW_PREC_LMAX):
             ctx.count("low-precision-angles-not-decided:" + F_SOL)
             return
-        idx = _subsample(n, lmax)
-        decided, _ = o8.classify_polar(ph[idx])
-        idx = idx[decided]
-        if len(idx) == 0:
-            return
-        r, th, ph = r[idx], th[idx], ph[idx]
-        R = res[:, idx]
-        scale = o8.solid_scale(lmax, r)
-        ref = sph.ref_Y(lmax, th, ph)
-        usable = np.isfinite(scale) & (scale > 0)
-        with np.errstate(all="ignore"):
-            ratio = np.where(usable, np.asarray(R, dtype=o8.LD) / np.where(usable, scale, 1), ref)
-        e = np.abs(np.asarray(ratio - ref, dtype=float))
-        rows = np.where(np.isnan(e), np.inf, e).max(axis=1)
-        tol = tol_values(lmax) if low is None else tol_low(low, lmax, (th, ph))
-        sig = _first_bad(rows, tol)
-        sfx = "" if low is None else "-single-precision-input"
-        _chk(ctx, "solid-harmonics-scaled" + sfx, F_SOL, float(rows.max()), tol, sig=sig, detail=None if sig is None else dict(_worst(e, th, ph), lmax=lmax, r_at_worst=float(r[np.argmax(np.where(np.isnan(e), np.inf, e).max(axis=0))])))
-        zero = r == 0
-        if zero.any():
-            Rz = np.asarray(R[:, zero], dtype=float)
-            good0 = bool(np.all(np.abs(Rz[0] - 1.0) <= 1e-14)) and (lmax == 0 or bool(np.all(Rz[1:] == 0)))
-            _chk(ctx, "solid-harmonics-at-origin", F_SOL, good0, sig="r=0-not-(1,0,0,...)", detail={"lmax": lmax, "head": Rz[: min(4, len(Rz)), 0]})
-        if lmax >= 1:
-            xyz = np.asarray(o8.sph_to_unit(th, ph) * r.astype(o8.LD)[:, None], dtype=float)
-            got = np.asarray(R[1:4], dtype=float)
-            want = np.stack([xyz[:, 2], xyz[:, 0], xyz[:, 1]])
-            _chk(ctx, "solid-l1-is-zxy" + sfx, F_SOL, float(np.max(np.abs(got - want) / np.maximum(r, 1e-300)[None, :], initial=0.0)), 1e-13 if low is None else 16 * low * (1 + _maxabs(th) + _maxabs(ph)), sig="l=1-not-(z,x,y)")
+        r_all, th_all, ph_all = r, th, ph
+        for idx in _chunks(ctx, n, lmax):
+            decided, _ = o8.classify_polar(ph_all[idx])
+            idx = idx[decided]
+            if len(idx) == 0:
+                continue
+            r, th, ph = r_all[idx], th_all[idx], ph_all[idx]
+            R = res[:, idx]
+            scale = o8.solid_scale(lmax, r)
+            ref = sph.ref_Y(lmax, th, ph)
+            usable = np.isfinite(scale) & (scale > 0)
+            with np.errstate(all="ignore"):
+                ratio = np.where(usable, np.asarray(R, dtype=o8.LD) / np.where(usable, scale, 1), ref)
+            e = np.abs(np.asarray(ratio - ref, dtype=float))
+            rows = np.where(np.isnan(e), np.inf, e).max(axis=1)
+            tol = tol_values(lmax) if low is None else tol_low(low, lmax, (th, ph))
+            sig = _first_bad(rows, tol)
+            sfx = "" if low is None else "-single-precision-input"
+            _chk(ctx, "solid-harmonics-scaled" + sfx, F_SOL, float(rows.max()), tol, sig=sig, detail=None if sig is None else dict(_worst(e, th, ph), lmax=lmax, r_at_worst=float(r[np.argmax(np.where(np.isnan(e), np.inf, e).max(axis=0))])))
+            zero = r == 0
+            if zero.any():
+                Rz = np.asarray(R[:, zero], dtype=float)
+                good0 = bool(np.all(np.abs(Rz[0] - 1.0) <= 1e-14)) and (lmax == 0 or bool(np.all(Rz[1:] == 0)))
+                _chk(ctx, "solid-harmonics-at-origin", F_SOL, good0, sig="r=0-not-(1,0,0,...)", detail={"lmax": lmax, "head": Rz[: min(4, len(Rz)), 0]})
+            if lmax >= 1:
+                xyz = np.asarray(o8.sph_to_unit(th, ph) * r.astype(o8.LD)[:, None], dtype=float)
+                got = np.asarray(R[1:4], dtype=float)
+                want = np.stack([xyz[:, 2], xyz[:, 0], xyz[:, 1]])
+                _chk(ctx, "solid-l1-is-zxy" + sfx, F_SOL, float(np.max(np.abs(got - want) / np.maximum(r, 1e-300)[None, :], initial=0.0)), 1e-13 if low is None else 16 * low * (1 + _maxabs(th) + _maxabs(ph)), sig="l=1-not-(z,x,y)")
 
     return post
 
